@@ -40,6 +40,7 @@ type c13Reply struct {
 	Dup    bool    `json:"dup"`     // delivered twice (second copy 4 ticks later)
 	Delay  int     `json:"delay"`   // ticks after the transmission (≡ 1 mod 4, residues mod T distinct)
 	OnlyTx int     `json:"only_tx"` // answer only the k-th transmission of that type (−1: every one)
+	PadTo  int     `json:"pad_to"`  // exact size of the reply datagram (0: natural); 1500 is the client's read buffer size
 }
 
 type c13Case struct {
@@ -245,11 +246,25 @@ func c13Reply4(r c13Reply, si int, xid []byte, chaddr net.HardwareAddr, serial i
 	case 2:
 		p.UpdateOption(dhcpv4.OptServerIdentifier(serverIP(si + 100)))
 		d.SID = serverIP(si + 100)
+	case 3: // a server that identifies itself as 0.0.0.0 (present, not absent)
+		p.UpdateOption(dhcpv4.OptServerIdentifier(net.IP{0, 0, 0, 0}))
+		d.SID = net.IP{0, 0, 0, 0}
 	}
 	p.UpdateOption(dhcpv4.OptIPAddressLeaseTime(time.Hour))
 	s := make([]byte, 4)
 	binary.BigEndian.PutUint32(s, uint32(serial))
 	p.UpdateOption(dhcpv4.OptGeneric(dhcpv4.GenericOptionCode(224), s))
+	for code := 230; r.PadTo > 0 && code < 250; code++ {
+		rest := r.PadTo - len(p.ToBytes())
+		if rest < 2 {
+			break
+		}
+		n := min(255, rest-2)
+		if rest-2-n == 1 {
+			n--
+		}
+		p.UpdateOption(dhcpv4.OptGeneric(dhcpv4.GenericOptionCode(uint8(code)), make([]byte, n)))
+	}
 	d.Xid = append([]byte{}, p.TransactionID[:]...)
 	d.Good = r.Op == 0 && r.HW == 0
 	d.Yi = append([]byte{}, r.Yi...)
@@ -281,6 +296,9 @@ func c13Reply6(r c13Reply, si int, req *dhcpv6.Message, serial int, d *c13Delive
 	s := make([]byte, 4)
 	binary.BigEndian.PutUint32(s, uint32(serial))
 	m.AddOption(&dhcpv6.OptionGeneric{OptionCode: 65001, OptionData: s})
+	if rest := r.PadTo - len(m.ToBytes()) - 4; r.PadTo > 0 && rest >= 0 {
+		m.AddOption(&dhcpv6.OptionGeneric{OptionCode: 65002, OptionData: make([]byte, rest)})
+	}
 	d.Xid = append([]byte{}, m.TransactionID[:]...)
 	d.Good = true
 	return m.ToBytes()
@@ -320,6 +338,23 @@ func (h *c13History) ambiguous() bool {
 	return false
 }
 
+// c13Schedule checks that the transmissions of one phase sit at start, start+T, start+3T, …
+func c13Schedule(tag string, ws []c13Write, T, tries int) *obs.Fail {
+	if len(ws) > tries {
+		return obs.Failf("C13/"+tag+"/transmission-count", fmt.Sprintf("at most %d transmissions", tries), "%d", len(ws))
+	}
+	for j, w := range ws {
+		if want := ws[0].At + T*((1<<uint(j))-1); w.At != want {
+			var at []int
+			for _, x := range ws {
+				at = append(at, x.At)
+			}
+			return obs.Failf("C13/"+tag+"/retransmission-schedule", fmt.Sprintf("transmission %d at tick %d (start %d, timeout %d ticks)", j, want, ws[0].At, T), "ticks %v", at)
+		}
+	}
+	return nil
+}
+
 func c13Check4(c c13Case, h *c13History) *obs.Fail {
 	T := c.T
 	sched := T * ((1 << uint(c.Tries)) - 1)
@@ -339,6 +374,9 @@ func c13Check4(c c13Case, h *c13History) *obs.Fail {
 	}
 	if len(disc) == 0 {
 		return obs.Failf("C13/v4/no-discover", "a DISCOVER on the wire", "none")
+	}
+	if f := c13Schedule("v4/discover", disc, T, c.Tries); f != nil {
+		return f
 	}
 	xid := disc[0].V4.TransactionID[:]
 	valid := func(d c13Delivery, x []byte) bool {
@@ -389,6 +427,9 @@ func c13Check4(c c13Case, h *c13History) *obs.Fail {
 			return obs.Failf("C13/v4/request/server-id", fmt.Sprintf("option 54 = offering server %v", net.IP(sel.SID)), "%v", p.Options.Get(dhcpv4.OptionServerIdentifier))
 		}
 	}
+	if f := c13Schedule("v4/request", firstReqs, T, c.Tries); f != nil {
+		return f
+	}
 	reqStart := firstReqs[0].At
 	var fin *c13Delivery
 	for i := range h.Dels {
@@ -424,6 +465,9 @@ func c13Check4(c c13Case, h *c13History) *obs.Fail {
 	}
 	if len(rn) == 0 {
 		return obs.Failf("C13/v4/renew/no-request", "a renewal REQUEST", "none")
+	}
+	if f := c13Schedule("v4/renew", rn, T, c.Tries); f != nil {
+		return f
 	}
 	leased := fin.Yi
 	for _, w := range rn {
@@ -499,6 +543,12 @@ func c13Check6(c c13Case, h *c13History) *obs.Fail {
 	}
 	if len(sol) == 0 {
 		return obs.Failf("C13/v6/no-solicit", "a SOLICIT on the wire", "none")
+	}
+	if f := c13Schedule("v6/solicit", sol, c.T, c.Tries); f != nil {
+		return f
+	}
+	if f := c13Schedule("v6/request", reqs, c.T, c.Tries); f != nil {
+		return f
 	}
 	xid := sol[0].V6.TransactionID[:]
 	accept := map[int]bool{2: true}
@@ -647,7 +697,8 @@ func genC13() *rapid.Generator[c13Case] {
 					}
 				}
 				r.Xid = rapid.SampledFrom([]int{0, 0, 0, 0, 1}).Draw(t, "xid")
-				r.SID = rapid.SampledFrom([]int{0, 0, 0, 1, 2}).Draw(t, "sid")
+				r.SID = rapid.SampledFrom([]int{0, 0, 0, 1, 2, 3}).Draw(t, "sid")
+				r.PadTo = rapid.SampledFrom([]int{0, 0, 0, 0, 0, 576, 1499, 1500}).Draw(t, "padto")
 				r.HW = rapid.SampledFrom([]int{0, 0, 0, 0, 1}).Draw(t, "hw")
 				r.Op = rapid.SampledFrom([]int{0, 0, 0, 0, 1}).Draw(t, "opc")
 				r.Bad = rapid.IntRange(0, 9).Draw(t, "bad") == 0
@@ -679,14 +730,16 @@ func genC13() *rapid.Generator[c13Case] {
 					used[res] = true
 					return res
 				}
-				first := c13Reply{On: 1, Type: 2, OnlyTx: -1, Delay: pick(), Yi: []byte{10, 1, byte(s), 7}}
+				first := c13Reply{On: 1, Type: 2, OnlyTx: rapid.SampledFrom([]int{-1, -1, -1, 1, 2}).Draw(t, "firsttx"), Delay: pick(), Yi: []byte{10, 1, byte(s), 7},
+					SID: rapid.SampledFrom([]int{0, 0, 0, 0, 3, 1}).Draw(t, "coopsid"), PadTo: rapid.SampledFrom([]int{0, 0, 0, 1500}).Draw(t, "cooppad")}
 				if c.V6 && c.Op == 1 && rapid.Bool().Draw(t, "rapidreply") {
 					first.Type = 7
 				}
 				first.Op = rapid.SampledFrom([]int{0, 0, 1}).Draw(t, "pd") * boolInt(c.V6)
 				rs = append(rs, first)
 				if rapid.IntRange(0, 9).Draw(t, "second") < 8 {
-					second := c13Reply{On: 3, Type: 5, OnlyTx: -1, Delay: pick(), Yi: []byte{10, 1, byte(s), byte(rapid.SampledFrom([]int{7, 8}).Draw(t, "ackyi"))}}
+					second := c13Reply{On: 3, Type: 5, OnlyTx: rapid.SampledFrom([]int{-1, -1, -1, 1}).Draw(t, "secondtx"), Delay: pick(), Yi: []byte{10, 1, byte(s), byte(rapid.SampledFrom([]int{7, 8}).Draw(t, "ackyi"))},
+						SID: first.SID, PadTo: rapid.SampledFrom([]int{0, 0, 0, 1500}).Draw(t, "cooppad2")}
 					if c.V6 {
 						second.Type = 7
 					} else if rapid.IntRange(0, 4).Draw(t, "nak") == 0 {
